@@ -23,6 +23,10 @@ CovZero == [histories |-> 0, addSingle |-> 0, addAggregate |-> 0, aggStored |-> 
             keyedStore |-> 0, keyedDuplicate |-> 0, allNonEmpty |-> 0,
             syncStore |-> 0, syncRefuse |-> 0, syncBeforeReset |-> 0, syncReplace |-> 0,
             syncRotateKeeps |-> 0, syncRotateDrops |-> 0, syncRotateBack |-> 0, syncJump |-> 0, syncSame |-> 0,
+            holdsMoreThan32ps |-> 0, holdsMoreThan32as |-> 0, holdsMoreThan32ex |-> 0,
+            holdsMoreThan32aggregatesOfOneData |-> 0, holdsMoreThan32datas |-> 0, holdsMoreThan32singles |-> 0,
+            holdsMoreThan32syncMsgs |-> 0, holdsMoreThan32syncContribs |-> 0,
+            holdsMoreThan128ps |-> 0, holdsMoreThan128as |-> 0, holdsMoreThan128ex |-> 0,
             devAggNilMap |-> 0, devSearchNilAgg |-> 0, devSyncNilMap |-> 0]
 Bump(c, names) == [f \in DOMAIN c |-> IF f \in names THEN c[f] + 1 ELSE c[f]]
 If(b, name) == IF b THEN {name} ELSE {}
@@ -52,6 +56,7 @@ TraceAddAtt ==
                         \cup If(n > 1 /\ o.ret = "ok" /\ Core(a) \notin o.P2.must, "aggCovered")
                         \cup If(n > 1 /\ o.ret = "err", "aggAllVoted")
                         \cup If(n = 1 /\ o.ret = "err", "conflictSingle")
+                        \cup If(n = 1 /\ o.ret = "err" /\ Cardinality(att.singles) > 32, "holdsMoreThan32singles")
                         \cup If(o.ret = "ok" /\ (Core(a) \in att.acc \/ Core(a) \in att.accS), "dupAbsorbed")
                         \cup If((n > 1 /\ \E s \in att.singles : s.data = d) \/ (n = 1 /\ AggsFor(att, d) # {}),
                                 "mixSingleAggregate"))
@@ -70,7 +75,10 @@ TraceSearch ==
   /\ IF e.ret = "ok" /\ SearchOK(att, e.fs, e.fc, R)
      THEN cov' = Bump(cov, {"search"} \cup If(R # {}, "searchNonEmpty")
                             \cup If(R # {} /\ (e.fs # -1 \/ e.fc # -1) /\ R # SearchMay(att, -1, -1), "searchFiltered")
-                            \cup If(R # SearchMay(att, e.fs, e.fc), "searchOmitsMay"))
+                            \cup If(R # SearchMay(att, e.fs, e.fc), "searchOmitsMay")
+                            \cup If(\E x \in R : Cardinality({y \in R : DataOf(y) = DataOf(x)}) > 32,
+                                    "holdsMoreThan32aggregatesOfOneData")
+                            \cup If(Cardinality({DataOf(x) : x \in R}) > 32, "holdsMoreThan32datas"))
      ELSE /\ e.ret = "panic"
           /\ SearchDeviates(att, e.fs, e.fc)
           /\ cov' = Bump(cov, {"search", "devSearchNilAgg"})
@@ -103,7 +111,9 @@ TraceAll ==
   /\ e.ret = "ok"
   /\ Range(e.res) = KeyedAll(keyed[e.pool])            \* everything stored, nothing else, nothing altered
   /\ Len(e.res) = Cardinality(Range(e.res))
-  /\ cov' = Bump(cov, If(Len(e.res) > 1, "allNonEmpty"))
+  /\ cov' = Bump(cov, If(Len(e.res) > 1, "allNonEmpty")
+                       \cup If(Len(e.res) > 32, "holdsMoreThan32" \o e.pool)
+                       \cup If(Len(e.res) > 128, "holdsMoreThan128" \o e.pool))
   /\ UNCHANGED <<att, keyed, sync>>
 
 (* the snapshot of the real pool shows exactly the abstract window Y2, every item in the buffer of its slot     *)
@@ -146,6 +156,8 @@ TraceSyncReset ==
                            \cup If(sync.cur # -1 /\ e.slot = sync.cur + 1 /\ o.Y2.held # sync.held, "syncRotateDrops")
                            \cup If(sync.cur # -1 /\ e.slot = sync.cur - 1 /\ o.Y2.held # {}, "syncRotateBack")
                            \cup If(sync.cur # -1 /\ e.slot = sync.cur, "syncSame")
+                           \cup If(Cardinality({x \in o.Y2.held : x.kind = "msg"}) > 32, "holdsMoreThan32syncMsgs")
+                           \cup If(Cardinality({x \in o.Y2.held : x.kind = "contrib"}) > 32, "holdsMoreThan32syncContribs")
                            \cup If(sync.cur # -1 /\ (e.slot > sync.cur + 1 \/ e.slot < sync.cur - 1) /\ sync.held # {},
                                    "syncJump"))
 
